@@ -60,13 +60,18 @@ class HWorld(object):
 
         # offset: values of the two function versions differ by a relative 1e-6 only (still different data)
         off = self.off = int(variant.get("offset", 0))
+        # close: the labels of argument a are distinct floats that differ by a relative 4e-6 only
+        close = self.close_labels = bool(variant.get("close_coords"))
+
+        def ai(a):
+            return int(round((a - 1000.0) / 0.004)) if close else a
 
         def fn(a, b, c=7):
-            return float(off + VER[0] * 1000 + 10 * a + b)
+            return float(off + VER[0] * 1000 + 10 * ai(a) + b)
 
         def fn2(a, b, c=7):
             # the function after it gained a second output
-            return float(off + VER[0] * 1000 + 10 * a + b), float(VER[0] * 1000 + 10 * a + b)
+            return float(off + VER[0] * 1000 + 10 * ai(a) + b), float(VER[0] * 1000 + 10 * ai(a) + b)
 
         self.fn = fn
         self.runner = self.xyz.Runner(fn, var_names="x", fn_args=("a", "b", "c"))
@@ -84,6 +89,9 @@ class HWorld(object):
             self.h = self.xyz.Harvester(self.runner, self.data_name, engine=other)
         else:
             self.h = self.xyz.Harvester(self.runner, self.data_name, engine=self.engine)
+
+    def aval(self, a):
+        return 1000.0 + 0.004 * a if self.close_labels else a
 
     def ekw(self):
         return {"engine": self.engine} if self.percall else {}
@@ -106,7 +114,7 @@ class HWorld(object):
             v = 0
             if (c == 0) == (not has_c):
                 try:
-                    sel = dict(a=a, b=b)
+                    sel = dict(a=self.aval(a), b=b)
                     if has_c:
                         sel["c"] = c
                     if var not in ds:
@@ -156,8 +164,8 @@ class HWorld(object):
 
 
 
-def combos_of(A, B, c):
-    d = {"a": list(A), "b": list(B)}
+def combos_of(A, B, c, w=None):
+    d = {"a": [w.aval(a) for a in A] if w is not None else list(A), "b": list(B)}
     if c:
         d["c"] = [c]
     return d
@@ -176,14 +184,14 @@ def do_hstep(w, ev):
                 A, B, c, v, p, sync = args
                 VER[0] = v
                 if w.variant.get("via_add_ds") and sync:
-                    ds = w.runner.run_combos(combos_of(A, B, c), verbosity=0)
+                    ds = w.runner.run_combos(combos_of(A, B, c, w), verbosity=0)
                     w.h.add_ds(ds, overwrite=pol[p], sync=sync, **w.ekw())
                 else:
-                    w.h.harvest_combos(combos_of(A, B, c), overwrite=pol[p], sync=sync, verbosity=0, **w.ekw())
+                    w.h.harvest_combos(combos_of(A, B, c, w), overwrite=pol[p], sync=sync, verbosity=0, **w.ekw())
             elif a == "harvest_cases":
                 P, v, p, sync = args
                 VER[0] = v
-                cases = [dict(a=q[0], b=q[1], **({"c": q[2]} if q[2] else {})) for q in P]
+                cases = [dict(a=w.aval(q[0]), b=q[1], **({"c": q[2]} if q[2] else {})) for q in P]
                 w.h.harvest_cases(cases, overwrite=pol[p], sync=sync, verbosity=0, **w.ekw())
             elif a == "save_merge":
                 A, B, c, v, p = args
@@ -191,14 +199,14 @@ def do_hstep(w, ev):
                 if w.variant.get("other_harvester"):
                     # the same change of the file made by another live Harvester object (another session / process)
                     other = xyz.Harvester(w.runner, w.data_name, engine=w.engine)
-                    other.harvest_combos(combos_of(A, B, c), overwrite=pol[p], verbosity=0)      # (its own engine is the file's)
+                    other.harvest_combos(combos_of(A, B, c, w), overwrite=pol[p], verbosity=0)      # (its own engine is the file's)
                 else:
-                    ds = w.runner.run_combos(combos_of(A, B, c), verbosity=0)
+                    ds = w.runner.run_combos(combos_of(A, B, c, w), verbosity=0)
                     xyz.save_merge_ds(ds, w.data_name, overwrite=pol[p], engine=w.engine)
             elif a == "expand_dims":
                 w.h.expand_dims("c", 7)
             elif a == "drop_sel":
-                w.h.drop_sel(a=args[0])
+                w.h.drop_sel(a=w.aval(args[0]))
             elif a == "delete_ds":
                 w.h.delete_ds()
             else:
@@ -301,7 +309,11 @@ def replay_h(case, variant, points):
                         p0 = lost[0]
                         mem_only = src == "mem" and (prev["disk"] is None or prev["disk"][p0] == 0)
                         synced = bool(ev["args"][-1]) if ev["a"] in ("harvest_combos", "harvest_cases") else True
-                        tag = "dropped_" + src + ("_memory_only_by_synced_add" if (mem_only and synced) else "")
+                        # K1's shape: the file existed, so the synced add reloaded memory from it; with no file on disk
+                        # there is nothing to reload - memory-only points dropped then are another defect
+                        reloaded = bool(prev.get("exists"))
+                        tag = "dropped_" + src + (("_memory_only_by_synced_add" if reloaded else "_memory_only_no_file")
+                                                  if (mem_only and synced) else "")
                         return (label + ": point %r had data (%s) before this call and has none after it%s" % (
                             p0, src, " (the point had only been harvested with sync=False)" if mem_only else ""), tag, k, notes)
             prev = o
@@ -344,7 +356,8 @@ class SWorld(object):
         self.variant = variant
         self.tmp = tempfile.mkdtemp(prefix="samp-", dir=common.scratch("samp"))
         self.engine = variant.get("engine", "pickle")
-        self.data_name = os.path.join(self.tmp, "table." + {"pickle": "pkl", "csv": "csv"}[self.engine])
+        self.data_name = os.path.join(self.tmp, "table." + {"pickle": "pkl", "csv": "csv"}[self.engine]
+                                      + ({"pickle": ".gz", "csv": ".bz2"}[self.engine] if variant.get("compressed") else ""))
 
         nan_point = bool(variant.get("nan_point"))
         self.nan_point = nan_point
@@ -380,12 +393,13 @@ class SWorld(object):
         out = []
         for _, r in df.iterrows():
             x = float(r["x"])
-            a, b = int(r["a"]), int(r["b"])
+            a, b = float(r["a"]), int(r["b"])
+            a = int(a) if a == int(a) else a
             if math.isnan(x):
                 ok = self.nan_point and (a, b) == (2, 2) and math.isnan(float(r["d"])) and int(r["k"]) == 3
                 out.append([a, b, -2 if ok else -1])      # -2: the all-NaN result of the point (2, 2)
                 continue
-            ok = (int(x) % 1000 == 10 * a + b) and (int(float(r["d"])) == a - b) and (int(r["k"]) == 3)
+            ok = (int(x) % 1000 == int(10 * a + b)) and (float(r["d"]) == a - b) and (int(r["k"]) == 3)
             out.append([a, b, int(x) // 1000 if ok else -1])
         return out
 
